@@ -16,7 +16,7 @@ package storage
 //@ spec cellsSameExcept(c) = forall(x *unconfirmedTx, x != c && !fresh(x) ==> cellSame(x))
 
 //@ func (*TxRepository).MarkUnsafe
-//@   serves C05 C07 C03
+//@   serves C05 C07 C03 C11
 //@   atomic unconfirmedLock
 //@   requires InvU(repo)
 //@   ensures known: old(has(repo.unconfirmed, txid)) ==> result0 && result1 == nil && repo.unconfirmed[txid].unsafe
@@ -26,7 +26,7 @@ package storage
 //@   ensures inv: InvU(repo)
 
 //@ func (*TxRepository).MarkTrusted
-//@   serves C07
+//@   serves C07 C11 C12
 //@   atomic unconfirmedLock
 //@   requires InvU(repo)
 //@   ensures marks: old(has(repo.unconfirmed, txid)) ==> repo.unconfirmed[txid].trusted
@@ -37,7 +37,7 @@ package storage
 //@ spec newlySafe(r, t) = has(r.unconfirmed, t) && r.unconfirmed[t].safe && !old(r.unconfirmed[t].safe)
 
 //@ func (*TxRepository).GetNewSafe
-//@   serves C07 C12
+//@   serves C07 C12 C11 C05
 //@   atomic unconfirmedLock
 //@   requires InvU(repo) && memPool != nil && state.InvTx(memPool) && !held(memPool.mutex)
 //@   let now = UnixNano(beforeTime)
@@ -64,7 +64,7 @@ package storage
 
 //@ func (*TxRepository).Add
 //@   opt partial = 1
-//@   serves C07 C03
+//@   serves C07 C03 C11 C05
 //@   requires InvU(repo) && (height == -1 ==> !held(repo.unconfirmedLock)) && !held(repo.blockLock)
 //@   ensures gate: height == -1 ==> (result0 == !old(has(repo.unconfirmed, txid)) && result2 == nil && has(repo.unconfirmed, txid))
 //@   ensures existing: height == -1 ==> (old(has(repo.unconfirmed, txid)) ==> repo.unconfirmed[txid] == old(repo.unconfirmed[txid]) && repo.unconfirmed[txid].trusted == (old(repo.unconfirmed[txid].trusted) || trusted) && repo.unconfirmed[txid].safe == (old(repo.unconfirmed[txid].safe) || safe) && result1 == (safe && !old(repo.unconfirmed[txid].safe)) && same(repo.unconfirmed[txid].unsafe, repo.unconfirmed[txid].time))
@@ -77,7 +77,7 @@ package storage
 
 //@ func (*TxRepository).Remove
 //@   opt partial = 1
-//@   serves C03 C07
+//@   serves C03 C07 C11
 //@   requires InvU(repo) && (height == -1 ==> !held(repo.unconfirmedLock)) && !held(repo.blockLock)
 //@   ensures gone: height == -1 ==> (!has(repo.unconfirmed, txid) && result0 == old(has(repo.unconfirmed, txid)) && result1 == nil)
 //@   ensures others: height == -1 ==> (same(repo.unconfirmed) && uSameExcept(repo, txid) && forall(x *unconfirmedTx, !fresh(x) ==> cellSame(x)))
@@ -424,19 +424,19 @@ package storage
 //@   ensures value: result != nil && *result == BlockHashOf(Hdr(repo, repo.height)) && memSame(repo)
 
 //@ func (*BlockRepository).Contains
-//@   serves C09 C02
+//@   serves C09 C02 C12
 //@   atomic mutex
 //@   requires hash != nil
 //@   ensures value: result == has(repo.heights, *hash) && memSame(repo)
 
 //@ func (*BlockRepository).Height
-//@   serves C09 C02
+//@   serves C09 C02 C12
 //@   atomic mutex
 //@   requires hash != nil
 //@   ensures value: result1 == has(repo.heights, *hash) && (result1 ==> result0 == repo.heights[*hash]) && memSame(repo)
 
 //@ func (*BlockRepository).Add
-//@   serves C09 C10 C02
+//@   serves C09 C10 C02 C12
 //@   atomic mutex
 //@   safety index nil
 //@   requires header != nil && InvMem(repo) && InvFull(repo) && InvTop(repo) && InvNewest(repo)
@@ -527,7 +527,7 @@ package storage
 // with the cached state of that chain: height = 1000*m + (headers in file m) - 1, the cache holds
 // file m, and the representation invariants of C09 hold.
 //@ func (*BlockRepository).Load
-//@   serves C09 C10
+//@   serves C09 C10 C02
 //@   opt nomonitor = 1
 //@   opt partial = 1
 //@   requires repo != nil
